@@ -160,12 +160,53 @@ func run(c *harness.Ctx, i int) {
 	ok := true
 	switch leg {
 	case "catar":
+		overlay := rng.Intn(3) == 0
+		outside := filepath.Join(dir, "outside-file")
+		if overlay {
+			// the destination already holds an older copy of the tree in which some paths were something else: a
+			// symlink (dangling, or to a file outside) where a file comes now, a file where a symlink or device comes,
+			// files with other content, mode, owner, times and attributes that are gone in the new version
+			os.WriteFile(outside, []byte("outside\n"), 0600)
+			var older []treegen.Entry
+			for _, e := range entries {
+				o := e
+				if e.Path != "." && e.Kind != "dir" && rng.Intn(2) == 0 {
+					switch e.Kind {
+					case "file":
+						if rng.Intn(2) == 0 {
+							o = treegen.Entry{Path: e.Path, Kind: "symlink", Mode: 0777, Target: []string{outside, "dangling", "."}[rng.Intn(3)], MTime: 1400000000_000000000}
+						} else {
+							o.Data = []byte("older content")
+							o.Mode = 0600
+							o.MTime = 1400000000_000000000
+							o.UID, o.GID = 7, 8
+							o.Xattrs = map[string]string{"user.stale": "left over"}
+						}
+					default: // symlink, chr, blk
+						o = treegen.Entry{Path: e.Path, Kind: "file", Mode: 0640, Data: []byte("was a file once"), MTime: 1400000000_000000000, Xattrs: map[string]string{"user.stale": "left over"}}
+					}
+				}
+				older = append(older, o)
+			}
+			if err := treegen.Materialize(dst, older); err != nil {
+				c.Inconclusive("cannot materialize the older copy: %v", err)
+				return
+			}
+			c.Count("unpacked_over_older_copy", 1)
+			leg = "catar-over-older-copy"
+		}
 		if err := desync.UnTar(context.Background(), bytes.NewReader(cat.Bytes()), desync.NewLocalFS(dst, desync.LocalFSOptions{})); err != nil {
 			c.Violation("untar-failed", "UnTar of an archive desync just wrote failed: %v", err)
 			return
 		}
 		got, _ := treegen.Snapshot(dst)
 		ok = report(c, "disk", treegen.Compare(want, got), want)
+		if overlay {
+			if b, _ := os.ReadFile(outside); string(b) != "outside\n" {
+				c.Violation("disk:overlay:wrote-through-symlink", "unpacking over an older copy changed a file outside the destination that an old symlink pointed to")
+				ok = false
+			}
+		}
 	case "index":
 		ms := dsu.NewMemStore("s")
 		sz := dsu.Sizes{Min: 1024, Avg: 4096, Max: 16384}
